@@ -86,6 +86,16 @@ theorem C24_checkpoint_source (cfg : Cfg) (hashFn : Bytes → α) (hcf : Collisi
   ⟨C24_checkpoint_hash_scope_tied.1, C24_checkpoint_hash_scope_tied.2,
     C24_checkpoint cfg hashFn hcf s s' h l hv c f m hu hstep hok⟩
 
+/-- **C24_payload_ownership_tied.** `C24_authentic` speaks about the payload value an entry had
+when it was enqueued; that is the payload on the wire only if nobody writes to the queued slice
+afterwards. Regenerated fact: either `Sender.Replicate` copies the payload, or the envelope that
+`AppendRawWithMeta` hands to the hook is a fresh `make` (never pooled / reused). (`AppendRaw` passes
+the caller's slice: its callers hand over ownership — an assumption, see props/C24.py.) -/
+theorem C24_payload_ownership_tied :
+    Arc.Generated.C24.senderCopiesPayload = true ∨
+    (Arc.Generated.C24.hookPayloadAppendRawWithMeta = "fresh-make" ∧
+     Arc.Generated.C24.hookPayloadAppendRaw = "caller-slice") := by decide
+
 /-! ### non-vacuity: a concrete two-producer run with a reordering, duplicating, forging adversary -/
 
 /-- the symbolic hash used in the examples (pre-image itself: collision-free). -/
